@@ -57,5 +57,9 @@ def run(ctx):
     with ctx.rule('R09.5', 'crossing closes: a CloseOk for an already removed slot is not an error (other channels keep working)', floor=1) as r:
         A.check_script(ctx, r, arms, ('Method', 'n', 'channel', 'CloseOk'))
 
+    with ctx.rule('R09.6', 'nothing else takes items off the reply queue or bypasses the send path (shared with C04 / C13)', floor=8) as r:
+        A.include(ctx, r, 'c04', 'R04.4')
+        A.include(ctx, r, 'c13', 'R13.3', pick=('same-fifo',))
+
     with ctx.rule('R09.4', 'the closed id becomes available again', floor=1) as r:
         c10.reuse(ctx, r)
